@@ -58,6 +58,7 @@ theorem atomizable_default (t : LTy) (h : atomizable t = true) :
   | vec _ _ => simp [atomizable] at h
   | pair _ _ _ _ => simp [atomizable] at h
   | domPair _ _ _ _ => simp [atomizable] at h
+  | tri _ _ _ _ _ _ => simp [atomizable] at h
 
 /-- every nesting depth is covered -/
 theorem atomizable_tower (n : Nat) :
